@@ -2,6 +2,7 @@ package main
 
 import (
 	"fmt"
+	"sort"
 	"go/token"
 	"go/types"
 	"strings"
@@ -92,7 +93,13 @@ func ruleR20Scalar(c *Ctx, prop string) {
 		D := c.forwardSet(seeds, nil, scope)
 		W := c.forwardSetCtx(wseeds, nil, scope, D)
 		perFn := map[string]int{}
+		seenKey := map[string]bool{}
+		var fnsSorted []*ssa.Function
 		for f := range reach {
+			fnsSorted = append(fnsSorted, f)
+		}
+		sort.Slice(fnsSorted, func(i, j int) bool { return fname(fnsSorted[i]) < fname(fnsSorted[j]) })
+		for _, f := range fnsSorted {
 			if f == wrapper || strings.HasSuffix(c.fileOf(f.Pos()), ".pb.go") {
 				continue
 			}
@@ -113,8 +120,17 @@ func ruleR20Scalar(c *Ctx, prop string) {
 						continue
 					}
 					n++
-					perFn[fname(f)]++
-					key := fmt.Sprintf("R20:scalarwrap:%s#%d", fname(f), perFn[fname(f)])
+					fnKey := fname(f)
+					if i := strings.Index(fnKey, "["); i > 0 && len(f.TypeArgs()) > 0 {
+						fnKey = fnKey[:i] // generic instances share one key per assertion
+					}
+					ordKey := fname(f)
+					perFn[ordKey]++
+					key := fmt.Sprintf("R20:scalarwrap:%s#%d", fnKey, perFn[ordKey])
+					if seenKey[key] {
+						continue
+					}
+					seenKey[key] = true
 					elem := sl.Elem().String()
 					switch {
 					case W.has(ta.X) && covered[elem]:
